@@ -439,9 +439,70 @@ def _split_tuple_assigns(tree):
     return tree
 
 
+def _forelse_to_flag(tree):
+    """`for ..: BODY else: E`  ->  `flag = False; for ..: BODY[break := flag = True; break]; if not flag: E` (same for while).
+    Behaviour-preserving; turns the loop-else idiom into the flag idiom the exit-path rules reason about."""
+    counter = [0]
+
+    def own_breaks(loop):
+        out = []
+        stack = list(loop.body)
+        while stack:
+            n = stack.pop()
+            if isinstance(n, ast.Break):
+                out.append(n)
+            if isinstance(n, (ast.For, ast.While, ast.AsyncFor, ast.FunctionDef, ast.AsyncFunctionDef, ast.Lambda, ast.ClassDef)):
+                continue
+            stack.extend(ast.iter_child_nodes(n))
+        return out
+
+    def replace_breaks(stmts, flag):
+        out = []
+        for st in stmts:
+            if isinstance(st, ast.Break):
+                a = ast.copy_location(ast.Assign(targets=[ast.Name(id=flag, ctx=ast.Store())], value=ast.Constant(value=True)), st)
+                out.extend([a, st])
+                continue
+            if not isinstance(st, (ast.For, ast.While, ast.AsyncFor, ast.FunctionDef, ast.AsyncFunctionDef, ast.ClassDef)):
+                for fld in ("body", "orelse", "finalbody"):
+                    b = getattr(st, fld, None)
+                    if isinstance(b, list) and b and isinstance(b[0], ast.stmt):
+                        setattr(st, fld, replace_breaks(b, flag))
+                for h in getattr(st, "handlers", []) or []:
+                    h.body = replace_breaks(h.body, flag)
+            out.append(st)
+        return out
+
+    def fix(stmts):
+        out = []
+        for st in stmts:
+            for fld in ("body", "orelse", "finalbody"):
+                b = getattr(st, fld, None)
+                if isinstance(b, list) and b and isinstance(b[0], ast.stmt):
+                    setattr(st, fld, fix(b))
+            for h in getattr(st, "handlers", []) or []:
+                h.body = fix(h.body)
+            if isinstance(st, (ast.For, ast.While)) and st.orelse and own_breaks(st):
+                counter[0] += 1
+                flag = "_left_loop%d" % counter[0]
+                init = ast.copy_location(ast.Assign(targets=[ast.Name(id=flag, ctx=ast.Store())], value=ast.Constant(value=False)), st)
+                st.body = replace_breaks(st.body, flag)
+                tail = ast.copy_location(ast.If(test=ast.UnaryOp(op=ast.Not(), operand=ast.Name(id=flag, ctx=ast.Load())), body=st.orelse, orelse=[]), st.orelse[0])
+                st.orelse = []
+                out.extend([init, st, tail])
+                continue
+            out.append(st)
+        return out
+    for n in ast.walk(tree):
+        if isinstance(n, (ast.FunctionDef, ast.AsyncFunctionDef)):
+            n.body = fix(n.body)
+    return ast.fix_missing_locations(tree)
+
+
 def normal_form(tree):
     """the load-time normal form of a module (see DESIGN 2.1b)"""
     tree = ast.fix_missing_locations(_split_tuple_assigns(_ExprCanon().visit(tree)))
+    tree = _forelse_to_flag(tree)
     return _inline_return_temps(_flatten_terminating_ifs(_LoadNormaliser().visit(tree)))
 
 
